@@ -202,10 +202,19 @@ func VerifH_C03_nestedMapsReassemble() {
 		return
 	}
 	vAssert(back.K == v.K && len(back.MM) == len(v.MM), "outer map size re-assembles")
-	for ok, inner := range v.MM {
+	// fixed key order: the assertion log must not depend on Go's map iteration order
+	for _, ok := range []string{"a", "b"} {
+		inner, in := v.MM[ok]
+		if !in {
+			continue
+		}
 		got, present := back.MM[ok]
 		vAssert(present && len(got) == len(inner), "every outer entry has an inner map of its own size")
-		for ik, x := range inner {
+		for _, ik := range []string{"x", "y", "z"} {
+			x, in := inner[ik]
+			if !in {
+				continue
+			}
 			y, has := got[ik]
 			vAssert(has && y == x, "inner map entries re-assemble under their own outer key")
 		}
